@@ -151,17 +151,19 @@ def small_traces(plans, cfg, tid0, r):
 
 
 # ------------------------------------------------------------------------------------------------ shuffle / sample
-def run_perm(api, n, k, data, twice):
+def run_perm(api, n, k, data, twice, pop=None):
+    pop = list(range(n)) if pop is None else list(pop)
+
     def once():
         t = Tape(data)
         sr = StrongRandom(randfunc=t)
         if api == "shuffle":
-            x = list(range(n))
+            x = list(pop)
             out, exc = outcome(lambda: (sr.shuffle(x), x)[1])
             if out is None:
                 out = x
         else:
-            out, exc = outcome(lambda: sr.sample(list(range(n)), k))
+            out, exc = outcome(lambda: sr.sample(list(pop), k))
         return (list(out) if out is not None else []), exc, t.pos
     out, exc, pos = once()
     rec = dict(tape=list(data), out=out, drawn=pos, exc=exc, twice=bool(twice), out2=[], drawn2=0, exc2="none")
@@ -191,7 +193,18 @@ def perm_traces(cfg, tid0, r):
         tapes.append([0xff] * 5)                                                        # ends inside the rejections (when draws are needed)
         tid += 1
         runs = [run_perm(api, n, k, tp, twice=(j % cfg["twice_every"] == 0)) for j, tp in enumerate(tapes)]
-        traces.append(dict(tid=tid, family="perm", api=api, n=n, k=k, runs=runs))
+        traces.append(dict(tid=tid, family="perm", api=api, n=n, k=k, pop=list(range(n)), runs=runs))
+    # populations with repeated elements: selection is by POSITION (sample(['a','a','b'], 2) may return ['a','a']); tapes of small values,
+    # so that positions holding an already chosen value are drawn again and again
+    S = [0, 1, 2, 3, 4, 5, 6, 7, 0x80, 0xff]
+    filler = [(i * 37 + 1) % 256 for i in range(64)] + list(range(32))
+    for n in range(2, min(cfg["perm_max_n"], 6) + 1):
+        for pop in ([i // 2 for i in range(n)], [7] * n, [i % 2 for i in range(n)]):
+            for api, k in [("shuffle", 0)] + [("sample", k) for k in range(1, n + 1)]:
+                tapes = [[r.choice(S) for _ in range(n + 2)] + filler for _ in range(max(6, cfg["perm_samples"] // 3))]
+                tid += 1
+                runs = [run_perm(api, n, k, tp, twice=(j % cfg["twice_every"] == 0), pop=pop) for j, tp in enumerate(tapes)]
+                traces.append(dict(tid=tid, family="perm", api=api, n=n, k=k, pop=pop, runs=runs))
     return traces
 
 
